@@ -444,6 +444,18 @@ def gen_cache_pattern(rng):
         ops.append(['quiesce', 0])
 
     round_()
+    multi_inst = [h for h in multi if h in inst]
+    if multi_inst and r.random() < 0.35:
+        # a removal that fails half-way: the handler was already removed for its second name, removing it as a
+        # whole then raises after the first name has been taken out - the cache must not stay as it was
+        h = r.choice(multi_inst)
+        ops.append(['maybe_rmH', h, '2'])
+        round_()
+        ops.append(['maybe_rmH', h])
+        round_()
+        ops.append(['do', r.randrange(ncomp), ['fire', 0, target, 0, False]])
+        ops.append(['quiesce', 0])
+        return {'tmpls': tmpls, 'progs': progs, 'comps': comps, 'ops': ops}
     for _ in range(r.randint(1, 4)):
         x = r.random()
         if x < 0.45 and inst:
